@@ -86,6 +86,7 @@ def run(ctx):
     ctx.need(not dump["errors"], "ISA dump reported errors: %s" % dump["errors"][:2])
     for arch in TARGETS:
         grammar_cells(ctx, dump, arch, "C29.R3")
+    _context_interface(ctx, dump)
 
 
 def late_binding_rule(ctx, rid, prefixes):
@@ -169,3 +170,45 @@ def _split_block(ctx):
     ctx.ob("C29.R6", site, "the first half ends in a jump to the second half", ok, construct="jump-to-second-half")
     chk = [n for n in ast.walk(sb) if isinstance(n, ast.Assert) and "is_phi" in norm(n.test)]
     ctx.ob("C29.R6", site, "phis never move into the second half", bool(chk), construct="no-phi-in-rest")
+
+
+def _context_interface(ctx, dump):
+    """R7: the spill code generator selects instructions for MOV/LDR/STR/FPREL/REG trees through its own small
+    context object; it must offer everything those pattern functions use on `context`"""
+    from .. import isa as isamod
+    RA = "ppci/codegen/registerallocator.py"
+    ctx.rule("C29.R7", "every attribute a load/store/move/frame-address pattern uses on its `context` argument exists on the spill code generator's context (MiniCtx) as well as on the instruction selector's", floor=10)
+    project = ctx.project
+    mini = ctx.cls(RA, "MiniCtx")
+    provided = set()
+    for c in project.mro(mini):
+        for m in getattr(c, "body", []):
+            if isinstance(m, ast.FunctionDef):
+                provided.add(m.name)
+                if m.name == "__init__":
+                    for n in ast.walk(m):
+                        if isinstance(n, ast.Assign) and isinstance(n.targets[0], ast.Attribute) and norm(n.targets[0].value) == "self":
+                            provided.add(n.targets[0].attr)
+    n = 0
+    seen = set()
+    for arch in TARGETS + ["msp430", "xtensa", "avr", "or1k", "microblaze", "m68k", "mips"]:
+        if arch not in dump["archs"]:
+            continue
+        for pat in dump["archs"][arch]["patterns"]:
+            root = pat["tree"].split("(")[0].strip()
+            import re as _re
+            if not _re.match(r"^(MOV|LDR|STR|REG|FPREL)[IUF]\d+$", root):
+                continue   # MiniGen only builds MOV<t>(LDR<t>(FPREL..)), STR<t>(FPREL.., REG<t>) trees (MOVB is a block copy, never spill code)
+            key = (pat["file"], pat["method"], pat["line"])
+            if key in seen:
+                continue
+            seen.add(key)
+            fn = isamod.find_pattern_function(project, pat)
+            if fn is None or not fn.args.args:
+                continue
+            cv = fn.args.args[0].arg
+            used = sorted({x.attr for x in ast.walk(fn) if isinstance(x, ast.Attribute) and isinstance(x.value, ast.Name) and x.value.id == cv})
+            for a in used:
+                n += 1
+                ctx.ob("C29.R7", "%s:%s" % (fn._module.rel, fn.name), "`context.%s` used by the %s pattern is provided by MiniCtx (spill code)" % (a, root), a in provided, construct="ctx-attr:%s:%s" % (fn.name, a))
+    return n
